@@ -13,9 +13,11 @@ package c18
 // map placed at two positions); nothing is demanded about aliasing inside the clone.
 
 import (
+	"fmt"
 	"reflect"
 	"sort"
 	"strings"
+	"sync"
 	"testing"
 
 	"github.com/csgura/fp"
@@ -121,6 +123,41 @@ func mk[T any](name string, inst fp.Clone[T]) entry {
 					rec.Failf(rt, sig("mut-orig"), "mutating the original changed the clone\n input: %s\n clone before: %s\n clone after:  %s", desc, before, after)
 				}
 			})
+		kit.Check(t, name+"/concurrent",
+			"same inputs as equal; the instance clones the SAME input from G in 2..8 goroutines released together, 50 times each (reading only); every clone must print the original's canonical form; real goroutines: a miss proves nothing, a mismatch is a violation; non-trivial as for equal and G >= 4; "+ntRule,
+			kit.Opt{Weight: 0.1}, func(rt *rapid.T, rec *kit.Rec) {
+				orig, _, ov, _, desc := setup(rt, rec, true, "concurrent")
+				G := rapid.IntRange(2, 8).Draw(rt, "G")
+				want := canonV(ov)
+				bad := make([]string, G)
+				start := make(chan struct{})
+				var wg sync.WaitGroup
+				for g := 0; g < G; g++ {
+					wg.Add(1)
+					go func(g int) {
+						defer wg.Done()
+						defer func() {
+							if r := recover(); r != nil && bad[g] == "" {
+								bad[g] = fmt.Sprintf("goroutine %d panicked: %v", g, r)
+							}
+						}()
+						<-start
+						for k := 0; k < 50; k++ {
+							c := inst.Clone(*orig)
+							if got := canonV(reflect.ValueOf(&c).Elem()); got != want && bad[g] == "" {
+								bad[g] = fmt.Sprintf("goroutine %d of %d cloned %s into %s while other goroutines were cloning the same value", g, G, want, got)
+							}
+						}
+					}(g)
+				}
+				close(start)
+				wg.Wait()
+				for _, m := range bad {
+					if m != "" {
+						rec.Failf(rt, sig("concurrent"), "%s\n input: %s", m, desc)
+					}
+				}
+			})
 	}}
 }
 
@@ -139,11 +176,11 @@ func ptr[T any](c fp.Clone[T]) fp.Clone[*T] { return clone.Ptr(lazy.Done(c)) }
 func ptrCall[T any](c fp.Clone[T]) fp.Clone[*T] {
 	return clone.Ptr(lazy.Call(func() fp.Clone[T] { return c }))
 }
-func sl[T any](c fp.Clone[T]) fp.Clone[[]T]              { return clone.Slice(c) }
-func sq[T any](c fp.Clone[T]) fp.Clone[fp.Seq[T]]        { return clone.Seq(c) }
-func ms[V any](c fp.Clone[V]) fp.Clone[map[string]V]     { return clone.GoMap(gStr, c) }
-func mi[V any](c fp.Clone[V]) fp.Clone[map[int]V]        { return clone.GoMap(gInt, c) }
-func op[T any](c fp.Clone[T]) fp.Clone[fp.Option[T]]     { return clone.Option(c) }
+func sl[T any](c fp.Clone[T]) fp.Clone[[]T]          { return clone.Slice(c) }
+func sq[T any](c fp.Clone[T]) fp.Clone[fp.Seq[T]]    { return clone.Seq(c) }
+func ms[V any](c fp.Clone[V]) fp.Clone[map[string]V] { return clone.GoMap(gStr, c) }
+func mi[V any](c fp.Clone[V]) fp.Clone[map[int]V]    { return clone.GoMap(gInt, c) }
+func op[T any](c fp.Clone[T]) fp.Clone[fp.Option[T]] { return clone.Option(c) }
 func hc[H any, T hlist.HList](h fp.Clone[H], t fp.Clone[T]) fp.Clone[hlist.Cons[H, T]] {
 	return clone.HCons(h, t)
 }
